@@ -672,7 +672,18 @@ def declare(case, m, x, pieces):
         e = np.zeros(n)
         e[j] = 1.0
         return e
-    if bs == 'rows':
+    if bs == 'infnorm' and np.all(np.isfinite(lo)) and np.all(np.isfinite(hi)):
+        import rsome as rso
+        ctr, rad = (lo + hi) / 2, (hi - lo) / 2
+        grp = {}
+        for j in range(n):
+            grp.setdefault(float(rad[j]), []).append(j)
+        for r, js in grp.items():       # one infinity-norm ball per radius
+            sel = np.zeros((len(js), n))
+            for k, j in enumerate(js):
+                sel[k, j] = 1.0
+            m.st(rso.norm(sel @ x - ctr[js], 'inf') <= r)
+    elif bs == 'rows' or bs == 'infnorm':
         for j in range(n):
             if np.isfinite(lo[j]):
                 handles['cert'].append({'kind': 'le', 'G': -unit(j)[None, :], 'h': np.array([-lo[j]]), 'c': m.st(unit(j) @ x >= lo[j])})
@@ -731,7 +742,10 @@ def declare(case, m, x, pieces):
         if ATOMS[a['atom']][1] == 'elem' and len(a['M']) > 1 and a['atom'] in ('exp', 'log'):
             f = f.sum()
         e = f + e if np.any(c) or o['c0'] else f
-    (m.min if o['sense'] == 'min' else m.max)(e)
+    if case.get('flip_obj'):          # min f written as max -f (and vice versa): model.get() then returns -f
+        (m.max if o['sense'] == 'min' else m.min)(-e)
+    else:
+        (m.min if o['sense'] == 'min' else m.max)(e)
     return handles
 
 
